@@ -80,6 +80,7 @@ def _deductive_task(arg) -> dict:
         known = [k for k in load_known() if k.get('status') == 'open' and k.get('kind', 'deductive') == 'deductive'
                  and pid in k.get('properties', [k.get('property')])]
         obs = []
+        retries_left = 3
         mine = [ob for ob in rep.obligations if pid in ob.props]
         for k, ob in enumerate(mine):
             if k % nshards != shard:
@@ -94,8 +95,11 @@ def _deductive_task(arg) -> dict:
             # obligations with a listed finding: one e-matching attempt as stated, then the carve-out (DESIGN 8.2)
             # (as stated: a short attempt suffices - if the defect were gone the obligation would discharge in milliseconds like its neighbours)
             discharge(ob, budget_ms=(budget if not regions else max(1000, budget // 4)), inputs=inputs, want_smt2=(tier == 'thorough'), try_mbqi=not regions)
-            if ob.status == 'undecided' and not regions and ob.seconds * 1000 >= budget * 0.9:
-                discharge(ob, budget_ms=budget * 10, inputs=inputs)   # one retry with 10x budget (DESIGN 9.5)
+            if ob.status == 'undecided' and not regions and ob.seconds * 1000 >= budget * 0.9 and retries_left > 0:
+                # one retry with 10x budget (DESIGN 9.5) - for the odd obligation slowed down by a busy machine; when many obligations
+                # of a shard are open the cause is not load, and retrying each of them only delays the report
+                retries_left -= 1
+                discharge(ob, budget_ms=budget * 10, inputs=inputs)
             d = {'name': ob.name, 'kind': ob.kind, 'scenario': ob.scenario, 'path': list(ob.path), 'status': ob.status,
                  'backend': ob.backend, 'seconds': round(ob.seconds, 3), 'model': ob.model, 'line': ob.line,
                  'model_values': getattr(ob, 'model_values', None), 'known': None, 'smt2_sha': None}
